@@ -8,6 +8,7 @@ from plasTeX.Base.LaTeX.Sectioning import SectionUtils
 
 class document(Environment, SectionUtils):
     level = Environment.DOCUMENT_LEVEL
+    forcePars = True
 
     @property
     def title(self):
